@@ -151,7 +151,7 @@ func imformRef(x, q uint64) uint64 { return ref.MulMod(x%q, ref.InvMod(ref.TwoTo
 func runStat(c *eng.Ctx, sc statCase) {
 	dc := sc.Dist
 	n := 1 << sc.Ring.LogN
-	r, err := ring.NewRing(n, sc.Ring.Moduli)
+	r, err := newRing(sc.Ring)
 	if err != nil {
 		c.Inconclusive(err.Error())
 		return
